@@ -170,9 +170,46 @@ def instantiate(flat):
     return s, counts
 
 
+def outline_builtins(s):
+    """X17: the closure bodies of the builtin table (`"name" => Some(Function::new(|argument| BODY))`) are copied
+    mechanically into named functions `builtin__name(argument: &Value) -> EvalexprResultValue { BODY }` placed after
+    `builtin_function`, so that Verus (which rejects the `Function::new(closure)` construction) can verify them.
+    The dispatch table itself stays unverified; that each name reaches its closure is corroborated by the Kani
+    harnesses, which go through the real dispatch.  Macro-generated arms are not outlined."""
+    m = code_mask(s)
+    st, ls, bo, bc = item_span(s, m, r'^pub fn builtin_function\(')
+    body = s[bo:bc + 1]
+    mb = code_mask(body)
+    out = []
+    names = []
+    for mm in re.finditer(r'"([a-z_:0-9]+)" => Some\(Function::new\((?:move )?\|argument\|\s*', body):
+        # the string literal itself is masked; make sure the `=>` is code
+        if not mb[mm.end(1) + 2]:
+            continue
+        # arms behind a feature gate (regex, rand) are not part of the default build
+        prev = body[body.rfind('\n', 0, body.rfind('\n', 0, mm.start())) + 1:mm.start()]
+        if '#[cfg(' in prev:
+            continue
+        # closure body runs to the `)` that closes `Function::new(`
+        k = body.index('Function::new(', mm.start()) + len('Function::new')
+        close = match_close(body, mb, k, '(', ')')
+        text = body[mm.end():close].rstrip()
+        name = mm.group(1)
+        fname = 'builtin__' + name.replace('::', '_')
+        if not text.startswith('{'):
+            text = '{\n            ' + text + '\n        }'
+        out.append('// [extract] X17 closure body of builtin "%s"\npub fn %s(argument: &Value) -> crate::error::EvalexprResultValue %s\n' % (name, fname, text))
+        names.append(name)
+    if len(names) < 10:
+        raise Lost('X17 found only %d builtin closures' % len(names))
+    return s[:bc + 1] + '\n\n' + '\n'.join(out) + s[bc + 1:], names
+
+
 def extract(repo):
     flat = flatten(os.path.join(repo, 'src', 'lib.rs'))
     s, counts = instantiate(flat)
+    s, names = outline_builtins(s)
+    counts['X17'] = len(names)
     return s, counts
 
 
